@@ -135,7 +135,10 @@ def make_param(param, tname, rng):
         objs = [('o', tokn()) for _ in range(3)]
         # (also types that inherit the Selector's attributes: the older ObjectSelector, a user-defined subclass)
         T = rng.choice([param.Selector, param.Selector, param.ObjectSelector, _user_selector(param)])
-        return T(objects=objs, default=objs[0]), dict(kind='sel', instantiate=False, objs=objs)
+        import collections
+        # (the objects may be handed over in any mutable sequence, e.g. a UserList)
+        given = collections.UserList(objs) if rng.random() < 0.25 else list(objs)
+        return T(objects=given, default=objs[0]), dict(kind='sel', instantiate=False, objs=objs)
     if tname == 'esel':
         # declared without objects: assignments are not checked and grow the objects list of the Parameter they go through
         return (param.Selector(objects=[], check_on_set=False) if rng.random() < 0.5 else param.Selector()), dict(kind='esel', instantiate=False)
